@@ -38,6 +38,11 @@ def cases(tier, rng, run):
                 out.append(Case(line, "exh"))
                 if rng.random() < 0.15:
                     out.append(Case(line.replace("\tP|", "\tPD|"), "exh-default"))
+                    # the same for a NamedTuple / dataclass whose fields have these values as defaults: left out, or passed explicitly
+                    fields = f"x|S|{specs[0]}|{vs[0]}\tP_|t|T|{specs[1]};{specs[2]}|U:{vs[1]};{vs[2]}"
+                    for kindstyle in ("nt:kw", "dc:kw", "nt:pos", "dc:pos"):
+                        for item in ("PD", "PE"):
+                            out.append(Case(f"CALL\t{kindstyle}\t-\t\t{item}|" + fields.replace("P_", item), "exh-default"))
                 if rng.random() < 0.25:
                     out.append(Case(f"CALL\tnt:kw\t-\t\tP|x|S|{specs[0]}|{vs[0]}\tP|t|T|{specs[1]};{specs[2]}|U:{vs[1]};{vs[2]}", "exh-nt"))
                     out.append(Case(f"CALL\tdc:pos\t-\t\tP|x|S|{specs[0]}|{vs[0]}\tP|t|T|{specs[1]};{specs[2]}|U:{vs[1]};{vs[2]}", "exh-dc"))
